@@ -22,6 +22,7 @@ func runC12(c *Ctx) {
 	c12Cbuf(c)
 	c12Writer(c)
 	c12Suffixed(c)
+	c12ReaderRead(c)
 	c12Helpers(c)
 	c18Flate(c)
 	// a compressed frame must stay what it was: its payload may not live in recycled memory
@@ -568,4 +569,79 @@ func c12Helpers(c *Ctx) {
 		}
 		c.verdict(rule, rule+"/CompressTo", c.P.FuncPos(f), uniq(problems), "NewWriter(w); Write(p); Flush; Close; first error returned")
 	}
+}
+
+// c12ReaderRead folds wsflate.(*Reader).Read: without a sticky error it hands
+// on exactly what the decompressor returned - the count together with the
+// error (flate returns the last bytes of a stream in the same call as io.EOF) -
+// and with a sticky error it returns that error and touches nothing.
+func c12ReaderRead(c *Ctx) {
+	const rule = "C12.reader-read"
+	c.R.Rule(rule, 1, "wsflate.Reader.Read returns the decompressor's (n, err) unchanged; a sticky error is returned without reading")
+	rn := c.P.NamedType(wsflate, "Reader")
+	f := c.method(rule, wsflate, "Reader", "Read")
+	if rn == nil || f == nil {
+		return
+	}
+	st := structOf(rn)
+	iD, iErr := fieldIdx(st, "d", typeIs(wsflate+".Decompressor")), fieldIdx(st, "err", typeIs("error"))
+	if iD < 0 || iErr < 0 {
+		c.R.Unknown(rule, rule+"/anchor:wsflate.Reader.fields", "-", "fields do not resolve")
+		return
+	}
+	m := c.machine()
+	m.OpaqueOK = true
+	reads := 0
+	m.Models["invoke:(io.Reader).Read"] = func(cl *fold.Call) fold.Val {
+		reads++
+		cl.M.Emit(fold.Effect{Kind: "call", Name: "d.Read", Args: cl.Args})
+		n := fold.Int{Lo: 0, Hi: 1 << 20, Name: "dn"}
+		return fold.Tuple{n, errChoice(cl.M, "d.err", "flate-error", "global:io.EOF")}
+	}
+	m.Models["invoke:("+wsflate+".Decompressor).Read"] = m.Models["invoke:(io.Reader).Read"]
+	var problems []string
+	ps := m.Explore(f, func(mm *fold.Machine) []fold.Val {
+		reads = 0
+		s := fold.SymOfType("r", rn).(fold.Struct)
+		s.F[iD] = fold.Iface{V: fold.Sym{Name: "decompressor", NonNil: true}}
+		if mm.Choose("sticky", 2) == 1 {
+			s.F[iErr] = fold.Sym{Name: "sticky-error", NonNil: true}
+		} else {
+			s.F[iErr] = fold.Nil{}
+		}
+		return []fold.Val{fold.Ref{O: mm.NewObj("r", s)}, fold.SymSeq{Name: "p", Len: fold.Int{Lo: 0, Hi: 1 << 20, Name: "len(p)"}}}
+	}, func(mm *fold.Machine, p *fold.Path) {
+		ret, _ := p.Ret.(fold.Tuple)
+		if len(ret) != 2 {
+			problems = append(problems, "unexpected result shape")
+			return
+		}
+		n, e := fold.Show(ret[0]), c.errName(ret[1])
+		if p.Chose("sticky") == 1 {
+			if reads != 0 || n != "0" || e != "sticky-error" {
+				problems = append(problems, fmt.Sprintf("with a sticky error Read returns (%s, %s) after %d reads of the decompressor, want (0, sticky-error) and none", n, e, reads))
+			}
+			return
+		}
+		want := []string{"nil", "flate-error", "global:io.EOF"}[maxInt(p.Chose("d.err"), 0)]
+		if reads != 1 {
+			problems = append(problems, fmt.Sprintf("Read asks the decompressor %d times", reads))
+		} else if !strings.Contains(n, "dn") || e != want {
+			problems = append(problems, fmt.Sprintf("the decompressor returned (dn, %s), Read returns (%s, %s): bytes delivered together with an error - the last chunk before io.EOF - are lost", want, n, e))
+		}
+	})
+	for _, p := range ps {
+		if p.Abort != "" || p.Panic {
+			problems = append(problems, "undecided: "+p.Abort+panicNote(p))
+		}
+	}
+	c.R.AddCells(len(ps))
+	c.verdict(rule, rule+"/Reader.Read", c.P.FuncPos(f), uniq(problems), fmt.Sprintf("%d paths", len(ps)))
+}
+
+func maxInt(a, b int) int {
+	if a > b {
+		return a
+	}
+	return b
 }
